@@ -226,6 +226,7 @@ func c02Shapes(thorough bool) []harness.Shape {
 }
 
 func runC02(c *core.Ctx) {
+	defer c02Sched(c)
 	shapes := c02Shapes(c.Thorough())
 	sels := harness.Selectors(c.Thorough())
 	var idx int64
@@ -256,12 +257,124 @@ func runC02(c *core.Ctx) {
 	}
 }
 
+// c02Sched: schedule-level pass. A few mixed splits are run under every schedule
+// within the deviation bound (after set-up) with the same reference oracle.
+func c02Sched(c *core.Ctx) {
+	type sc struct {
+		sh    harness.Shape
+		split harness.Split
+	}
+	tree := harness.Shape{Name: "tree3", Blocks: []harness.BlockSpec{{Edges: []harness.Edge{{To: 1}, {To: 2, Form: harness.Inline}}}, {}, {}}}
+	chain := harness.Shape{Name: "chain3", Blocks: []harness.BlockSpec{{Edges: []harness.Edge{{To: 1}}}, {Edges: []harness.Edge{{To: 2, Form: harness.Nested}}}, {}}}
+	diamond := harness.Shape{Name: "diamond4", Blocks: []harness.BlockSpec{{Edges: []harness.Edge{{To: 1}, {To: 2, Form: harness.List}}}, {Edges: []harness.Edge{{To: 3}}}, {Edges: []harness.Edge{{To: 3, Form: harness.Inline}}}, {}}}
+	cases := []sc{
+		{tree, harness.Split{2, 2, 2}}, {tree, harness.Split{3, 2, 1}}, {tree, harness.Split{2, 0, 2}}, {tree, harness.Split{3, 1, 2}},
+		{chain, harness.Split{2, 2, 2}}, {chain, harness.Split{3, 2, 2}}, {chain, harness.Split{2, 3, 2}}, {chain, harness.Split{2, 2, 0}},
+		{diamond, harness.Split{2, 2, 2, 2}}, {diamond, harness.Split{3, 2, 1, 2}}, {diamond, harness.Split{2, 2, 2, 0}},
+	}
+	bound := 1
+	if c.Thorough() {
+		bound = 2
+	}
+	sel := findSel("all-d10")
+	for i, cs := range cases {
+		if !c.Mine(int64(i)) {
+			continue
+		}
+		if c.Expired() {
+			c.Res.Exhaustive = false
+			return
+		}
+		cs := cs
+		d := harness.Build(cs.sh, "")
+		qs, rs := d.Stores(cs.split)
+		ref := harness.Reference(d.Root, sel.Node, harness.RefOpts{Local: qs, Remote: rs, RemoteNeedsPath: true})
+		label := c02Case{cs.sh, sel.Name, cs.split}
+		c.Explore(core.ExploreOpts{MaxBound: bound, Cost: core.Deviation, Label: label, NoShard: true, MaxExecs: 40000}, func(cfg vsched.Config) core.Exec {
+			obs, s := runExchangeMarked(cfg, d, sel, cs.split)
+			x := core.Exec{Sched: s, Outcome: fmt.Sprintf("schedule-level %s %s wire=%d", cs.sh.Name, cs.split, len(obs.Wire))}
+			x.Viol = c02SchedJudge(d, ref, label, obs)
+			return x
+		})
+	}
+}
+
+func c02SchedJudge(d *harness.DAG, ref *harness.RefResult, label c02Case, obs *exchangeObs) *core.Violation {
+	var gotMissing, other []string
+	for _, e := range obs.Errs {
+		if strings.HasPrefix(e, "missing:") {
+			gotMissing = append(gotMissing, e)
+		} else {
+			other = append(other, e)
+		}
+	}
+	sort.Strings(gotMissing)
+	want := missingOf(ref, d)
+	sort.Strings(want)
+	detail := fmt.Sprintf("shape %s split %s under a non-default schedule: delivered [%s] expected [%s]; errors %v expected missing %v", label.Shape, label.Split, shorten(harness.VisitsString(obs.Visits)), shorten(harness.VisitsString(ref.Visits)), obs.Errs, want)
+	switch {
+	case obs.Panic != "":
+		return &core.Violation{Signature: "panic/schedule", What: obs.Panic, Replay: label}
+	case !obs.Closed:
+		return &core.Violation{Signature: "channels-not-closed/schedule", What: detail, Replay: label}
+	case len(other) > 0:
+		return &core.Violation{Signature: "unexpected-error/schedule", What: detail, Replay: label}
+	case harness.VisitsString(obs.Visits) != harness.VisitsString(ref.Visits):
+		return &core.Violation{Signature: "nodes-differ/schedule", What: detail, Replay: label}
+	case strings.Join(gotMissing, ";") != strings.Join(want, ";"):
+		return &core.Violation{Signature: "missing-errors-differ/schedule", What: detail, Replay: label}
+	case strings.Join(obs.Store, ",") != strings.Join(ref.Store.Keys(), ","):
+		return &core.Violation{Signature: "store-differs/schedule", What: detail, Replay: label}
+	}
+	return nil
+}
+
+// runExchangeMarked is runExchange with the set-up excluded from exploration.
+func runExchangeMarked(cfg vsched.Config, d *harness.DAG, sel harness.SelSpec, split harness.Split) (*exchangeObs, *vsched.Sched) {
+	obs := &exchangeObs{}
+	s := vsched.Run(cfg, func() {
+		f := harness.NewFixture(false)
+		qs, rs := d.Stores(split)
+		q := f.AddNode(peer.ID("Q"), qs)
+		r := f.AddNode(peer.ID("R"), rs)
+		vsched.Quiesce()
+		vsched.Mark()
+		res := q.Request(f, r.ID, d.Root, sel.Node, harness.MkID(1))
+		vsched.Quiesce()
+		obs.Visits = append(obs.Visits, res.Visits...)
+		obs.Errs = res.ErrStrings(d)
+		obs.Closed = res.Closed()
+		obs.Store = qs.Keys()
+		obs.Wire = f.Net.Wire
+		f.Cancel()
+	})
+	if s.Panic != nil {
+		obs.Panic = fmt.Sprint(s.Panic)
+	}
+	return obs, s
+}
+
 func init() {
 	core.Register(&core.Prop{ID: "C02", Level: "exploration",
-		Rule:        "every DAG shape of the catalogue (all reachable edge sets over <=N blocks x link forms direct/inline/nested/list x field order x raw leaves x duplicate links) x selector catalogue x every 4^N split of blocks between requestor and responder store; one real two-node exchange each (real wire encoding) under the default schedule; a class is a distinct (#visits,#missing,#remote blocks,root-miss) reference outcome",
+		Rule:        "every DAG shape of the catalogue (all reachable edge sets over <=N blocks x link forms direct/inline/nested/list x field order x raw leaves x duplicate links) x selector catalogue x every 4^N split of blocks between requestor and responder store; one real two-node exchange each (real wire encoding) under the default schedule; plus 11 mixed splits of three shapes under every schedule within deviation bound 1 (thorough 2) after set-up; a class is a distinct (#visits,#missing,#remote blocks,root-miss) reference outcome",
 		Assumptions: []string{"go-ipld-prime's walker is the reference for selector traversal", "default schedule only (schedules are C20/C06's subject)", "fake network is FIFO per link and lossless"},
 		Run:         runC02, QuickBudget: 300, ThoroughBudget: 2400,
 		Replay: func(raw json.RawMessage) string {
+			var w struct {
+				Label  *c02Case `json:"label"`
+				Prefix []int    `json:"prefix"`
+			}
+			if json.Unmarshal(raw, &w) == nil && w.Label != nil && len(w.Label.Shape.Blocks) > 0 {
+				d := harness.Build(w.Label.Shape, "")
+				sel := findSel(w.Label.Sel)
+				qs, rs := d.Stores(w.Label.Split)
+				ref := harness.Reference(d.Root, sel.Node, harness.RefOpts{Local: qs, Remote: rs, RemoteNeedsPath: true})
+				obs, _ := runExchangeMarked(vsched.Config{Prefix: w.Prefix}, d, sel, w.Label.Split)
+				if v := c02SchedJudge(d, ref, *w.Label, obs); v != nil {
+					return v.Signature + ": " + v.What
+				}
+				return "ok"
+			}
 			var cs c02Case
 			if err := json.Unmarshal(raw, &cs); err != nil {
 				return err.Error()
